@@ -5,12 +5,16 @@ import (
 	"fmt"
 	"math/big"
 	"net"
+	"os"
 	"path/filepath"
 
 	"gitlab.com/aquachain/aquachain/aqua"
 	"gitlab.com/aquachain/aquachain/aqua/accounts"
 	"gitlab.com/aquachain/aquachain/aqua/accounts/keystore"
 	"gitlab.com/aquachain/aquachain/common"
+	"gitlab.com/aquachain/aquachain/common/hexutil"
+	"gitlab.com/aquachain/aquachain/core/types"
+	"gitlab.com/aquachain/aquachain/rlp"
 	"gitlab.com/aquachain/aquachain/consensus/aquahash"
 	"gitlab.com/aquachain/aquachain/core"
 	"gitlab.com/aquachain/aquachain/node"
@@ -20,6 +24,7 @@ import (
 )
 
 const (
+	fillTo     = "0x00000000000000000000000000000000000000aa"
 	passLocked   = "pw-locked-account"
 	passUnlocked = "pw-unlocked-account"
 )
@@ -144,6 +149,45 @@ func startNode(dir string) (*testNode, error) {
 		tn.clients[name] = c
 	}
 	return tn, nil
+}
+
+// seedPending puts one pending transaction per keystore account into the pool,
+// signed OFFLINE with the key decrypted by the harness itself (no keystore
+// signing method is involved, so the counters do not move). Its fields are
+// exactly what fill() synthesises for a transaction-arguments struct, so methods
+// that act on "the pending transaction matching these arguments" (re-send,
+// re-sign, speed-up) find one.
+func (tn *testNode) seedPending() (int, error) {
+	n := 0
+	for _, a := range []struct {
+		acct accounts.Account
+		pass string
+	}{{tn.locked, passLocked}, {tn.unlocked, passUnlocked}} {
+		blob, err := os.ReadFile(a.acct.URL.Path)
+		if err != nil {
+			return n, err
+		}
+		key, err := keystore.DecryptKey(blob, a.pass)
+		if err != nil {
+			return n, err
+		}
+		to := common.HexToAddress(fillTo)
+		tx := types.NewTransaction(0, to, big.NewInt(1), 100000, big.NewInt(1e9), nil)
+		signed, err := types.SignTx(tx, types.NewEIP155Signer(new(big.Int).SetUint64(tn.chainID)), key.PrivateKey)
+		if err != nil {
+			return n, err
+		}
+		raw, err := rlp.EncodeToBytes(signed)
+		if err != nil {
+			return n, err
+		}
+		var h common.Hash
+		if err := tn.clients["inproc"].Call(&h, "aqua_sendRawTransaction", hexutil.Bytes(raw)); err != nil {
+			return n, fmt.Errorf("sendRawTransaction: %w", err)
+		}
+		n++
+	}
+	return n, nil
 }
 
 // resetAccounts restores the account states the cases assume: first account
